@@ -48,7 +48,12 @@ def generate(rng, tier, idx):
         p, h = kit.poison(site)
         ops.append(kit.mutation(K, rng))
         ops.append(p)
-        ops.append(kit.dump_op(K, rng, main_variant="random"))
+        d = kit.dump_op(K, rng, main_variant="random")
+        if rng.random() < 0.2 and d.get("to") != "handle":
+            # the destination is named by an os.PathLike (pathlib): whatever the library makes of it, the refused object
+            # must not cost the good copy (only asked of dumps the model calls invalid - see op_dump)
+            d["dest"] = "pathlike"
+        ops.append(d)
         ops.append(h)
         ops.append(kit.dump_op(K, rng, main_variant="random"))
     ops.append({"op": "restart", "path": path, "via": pick(rng, ["path", "handle", "loads"]), "offset": rng.randint(0, 500)})
